@@ -85,7 +85,7 @@ SPEC = {
     'halflock': HALFLOCK_FNS,
     'seqreg': REGISTRY_FNS,
     'channel': [('get', CH, 'get', None, 0), ('set', CH, 'set', None, 0), ('enqueue', CH, 'enqueue', None, 0), ('dequeue', CH, 'dequeue', None, 0),
-                ('new', CH, 'new', r'impl<T>\s+Channel', 0), ('send', CH, 'send', None, 0), ('recv', CH, 'recv', None, 0),
+                ('new', CH, 'new', r'impl<T>\s+Channel', 0), ('default', CH, 'default', r'Default\s+for\s+Channel', 0), ('send', CH, 'send', None, 0), ('recv', CH, 'recv', None, 0),
                 ('raw_store', RAW, 'store', r'Exfiltrator\s+for\s+WithRawSiginfo', 0), ('raw_load', RAW, 'load', r'Exfiltrator\s+for\s+WithRawSiginfo', 0),
                 ('raw_init', RAW, 'init', r'Exfiltrator\s+for\s+WithRawSiginfo', 0)],
     'iter': ITER_FNS + [('tokio_has_signals', TOK, 'has_signals', None, 0), ('tokio_poll_next', TOK, 'poll_next', None, 0),
